@@ -121,6 +121,10 @@ class LenaSplit(object):
                 # this will raise a LenaKeyError.
                 contexts.append(seq._get_context())
 
+        if not contexts:
+            # no sequence has a static context (for example,
+            # all of them are simple elements): Split is transparent
+            return deepcopy(getattr(self, "_ext_context", {}))
         # we don't store the static context of Split,
         # because that is already stored in an external sequence.
         context = lena.context.intersection(*contexts)
@@ -129,6 +133,9 @@ class LenaSplit(object):
         return context
 
     def _set_context(self, context):
+        # the external context is used only if no sequence
+        # has a static context.
+        self._ext_context = deepcopy(context)
         if not context:
             # every sequence was already initialised with {}.
             return
